@@ -52,7 +52,7 @@ struct Op {
         case VERTEX: o << "removeVertexFromEdgeList(" << i << ")"; break;
         case CLEAR: o << "clearEdges()"; break;
         case RESIZE: o << "resize(size+" << k << ")"; break;
-        case SETLABEL: o << "setEdgeLabel(" << i << "," << j << ",label#" << stamp << ")"; break;
+        case SETLABEL: o << "setEdgeLabel(" << i << "," << j << ",label#" << stamp << (force ? ",force=true)" : ")"); break;
         case DEDUP: o << "removeDuplicateEdges()"; break;
         }
         return o.str();
@@ -187,7 +187,10 @@ template <class G, class L> struct Subject {
             case VERTEX: g.removeVertexFromEdgeList(op.i); break;
             case CLEAR: g.clearEdges(); break;
             case RESIZE: g.resize(g.getSize() + op.k); break;
-            case SETLABEL: g.setEdgeLabel(op.i, op.j, labelOf<L>(op.stamp)); break;
+            case SETLABEL:
+                if (op.force) g.setEdgeLabel(op.i, op.j, labelOf<L>(op.stamp), true); // only generated on present edges (forced on an absent one is outside C03)
+                else g.setEdgeLabel(op.i, op.j, labelOf<L>(op.stamp));
+                break;
             case DEDUP: g.removeDuplicateEdges(); break;
             }
         }, &what);
@@ -249,7 +252,7 @@ template <class G, class L> struct Subject {
 };
 
 struct LabelCounters {
-    uint64_t present = 0, absent = 0, recreated = 0, hasEdgeLabel = 0;
+    uint64_t present = 0, absent = 0, recreated = 0, hasEdgeLabel = 0, structuralDisagreementSkipped = 0;
     uint64_t after[G_COUNT] = {0};
 };
 
@@ -264,7 +267,14 @@ template <class G, class L> std::string checkLabels(const Subject<G, L> &s, Labe
             for (VertexIndex j = 0; j < n; ++j) {
                 Edge k = s.m.key(i, j);
                 auto it = s.m.e.find(k);
-                if (it != s.m.e.end()) {
+                // "currently an edge" is what the graph itself says (hasEdge): whether the right pairs are edges is C01/C02's
+                // verdict; here only the label has to live exactly as long as its edge and hold the last value set
+                bool real = s.g.hasEdge(i, j);
+                if (real != (it != s.m.e.end())) {
+                    ++lc.structuralDisagreementSkipped;
+                    if (real) continue; // an edge the history does not account for: its label is nobody's to predict
+                }
+                if (real) {
                     ++lc.present;
                     if (s.recreated.count(k)) ++lc.recreated;
                     L want = labelOf<L>(it->second.stamp);
@@ -404,6 +414,7 @@ template <class G, class L> struct Monitor {
             Edge e = pp.pick(r, n, s.m.e, directed, r.chance(3, 4) ? 1 : 0);
             op.i = e.first; op.j = e.second;
             op.stamp = ++stampCtr;
+            op.force = s.m.has(op.i, op.j) && r.chance(1, 4);
         } else if (take(wRec)) {
             Edge e = pp.pick(r, n, s.m.e, directed, -1);
             op.i = e.first; op.j = e.second;
@@ -423,6 +434,7 @@ template <class G, class L> struct Monitor {
         R.count("noop_exactness_checks", noopChecks);
         R.count("rejected_setEdgeLabel_on_missing_edge", rejectedSetLabel);
         R.count("label_reads_present_edge", lc.present);
+        R.count("pairs_skipped_graph_and_model_disagree_on_edge_existence", lc.structuralDisagreementSkipped);
         R.count("label_reads_absent_pair", lc.absent);
         R.count("label_reads_after_recreation", lc.recreated);
         R.count("hasEdge_with_label_checks", lc.hasEdgeLabel);
@@ -486,7 +498,10 @@ template <class G, class L> struct Monitor {
             Op op = gen(r, s, pp, style, step, len, stampCtr, cfg.maxN);
             std::vector<std::vector<VertexIndex>> before;
             bool noop = s.isNoop(op);
-            if (noop) before = orderedLists(s.g);
+            // "changes nothing" is stated for re-adding an existing edge, removing an absent one and (C07) rejected calls;
+            // other calls that happen to have nothing to do are only held to the model, not to list order
+            bool exactNoop = noop && (op.kind == ADD_L || op.kind == ADD_D || op.kind == REMOVE || op.kind == SETLABEL);
+            if (exactNoop) before = orderedLists(s.g);
             std::string err = s.apply(op);
             ++calls;
             ++callsByKind[op.kind];
@@ -497,7 +512,7 @@ template <class G, class L> struct Monitor {
                 R.violation(cls + "/" + kindName(op.kind) + "/exception", err);
                 return;
             }
-            if (noop) {
+            if (exactNoop) {
                 ++noopChecks;
                 if (orderedLists(s.g) != before) {
                     R.violation(cls + "/" + kindName(op.kind) + "/no-op-changed-neighbour-lists",
@@ -556,12 +571,30 @@ template <class G, class L> struct Monitor {
             ++callsByKind[op.kind];
         }
     }
-    bool eqAll(const G &a, const G &b, bool want, const char *what, const std::string &ctx) {
+    // The verdict operator== must give is computed from what the two graphs OBSERVABLY are (vertices, hasEdge for every
+    // pair, label / weight / multiplicity of every edge) - not from what their histories were meant to denote - so that a
+    // defect in a mutator (another property's business) does not show up here as a wrong ==.
+    static bool observablyEqual(const G &a, const G &b) {
+        if (a.getSize() != b.getSize()) return false;
+        size_t n = a.getSize();
+        for (VertexIndex i = 0; i < n; ++i)
+            for (VertexIndex j = 0; j < n; ++j) {
+                bool ha = a.hasEdge(i, j);
+                if (ha != b.hasEdge(i, j)) return false;
+                if (ha && LT<L>::labelled && !(a.getEdgeLabel(i, j, false) == b.getEdgeLabel(i, j, false))) return false;
+            }
+        return true;
+    }
+    // byConstruction: what the generator intended (equal routes / a perturbed copy); only used for the coverage counters
+    bool eqAll(const G &a, const G &b, bool byConstruction, const char *what, const std::string &ctx) {
+        bool want = observablyEqual(a, b);
         bool r1 = (a == b), r2 = (b == a), n1 = (a != b), n2 = (b != a);
         R.count(want ? "equality_checks_expected_equal" : "equality_checks_expected_unequal");
+        if (want != byConstruction) R.count("pairs_whose_observable_relation_differs_from_the_intended_one");
         if (r1 != want || r2 != want || n1 == want || n2 == want) {
             std::ostringstream o;
-            o << what << ": expected " << (want ? "equal" : "unequal") << "; a==b:" << r1 << " b==a:" << r2 << " a!=b:" << n1 << " b!=a:" << n2 << "; " << ctx;
+            o << what << ": the two graphs are observably " << (want ? "equal" : "different") << " (size, hasEdge for every pair, value on every edge) but a==b:" << r1
+              << " b==a:" << r2 << " a!=b:" << n1 << " b!=a:" << n2 << "; " << ctx;
             R.violation(cls + "/operator==/" + what, o.str());
             return false;
         }
@@ -640,6 +673,7 @@ template <class G, class L> struct Monitor {
         if (!eqAll(A.g, C.g, true, "history-vs-fresh-build", ctx)) return;
         if (!eqAll(B.g, C.g, true, "history-vs-fresh-build", ctx)) return;
         // copies
+        std::string snapB = snapshot(B.g);
         G D(B.g);
         G E(0);
         E = A.g;
@@ -691,10 +725,8 @@ template <class G, class L> struct Monitor {
         if (!eqAll(D, B.g, false, "mutated-copy-vs-source", ctx)) return;
         // the source is unaffected by the change to its copy
         if (!eqAll(B.g, A.g, true, "source-after-copy-mutated", ctx)) return;
-        std::string e = checkStructure(B.g, B.m.expect(), oc, true);
-        if (e.empty()) e = checkLabels(B, lc);
-        if (!e.empty()) {
-            R.violation(cls + "/copy/source-changed-after-mutating-copy", e);
+        if (snapshot(B.g) != snapB) {
+            R.violation(cls + "/copy/source-changed-after-mutating-copy", "the source graph's observable state changed when its copy was mutated; before: " + snapB + " after: " + snapshot(B.g));
             return;
         }
         if (sub < 10 && R.samples.size() < 3)
